@@ -311,4 +311,35 @@ def rule_e(ctx: Ctx) -> None:
                 'key; a mapping parameter must occur through `.items()`.')
 
 
-RULES = [rule_a, rule_b, rule_c, rule_d, rule_e]
+def rule_f(ctx: Ctx, rule: str = 'C20.f') -> None:
+    """A selection path ending in `*` (every chunk of a lazy resource, or path='…/*') names the children of a known parent: the
+    declaration that governs such a child is the one found *under that parent*; the global declaration of the same name is only a
+    fallback for a child the parent does not declare."""
+    f = ctx.idx.method(SCHEMA, 'get_element')
+    ctx.analysed(f.qualname)
+    g = cfg_of(ctx, f)
+    star = [x for x in g.nodes if x.kind == 'if' and text(x.ast.test) in ("path[-1] == '*'", "path.endswith('*')", "path[-1:] == '*'")]
+    if len(star) != 1:
+        raise AnalysisError(f'UNRECOGNISED-IDIOM {rule}: wildcard-step branch of {f.qualname}')
+    finds = [n for n, c in call_nodes(g, lambda c: text(c.func) == 'self.find') if (text(star[0].ast.test), 'T') in guards(ctx, f, n)]
+    globs = []
+    for n in g.stmt_nodes():
+        if (text(star[0].ast.test), 'T') not in guards(ctx, f, n):
+            continue
+        if any(text(c.func) == 'self.maps.elements.get' for e in n.exprs for c in calls(e)) or \
+                any(isinstance(x, ast.Subscript) and text(x.value) == 'self.maps.elements' for e in n.exprs for x in ast.walk(e)):
+            globs.append(n)
+    ctx.floor(rule, 'global-declaration fallbacks in the wildcard-step branch', len(globs), 1)
+    dom = g.dominators(kinds='nTF')
+    for n in globs:
+        ok = any(fd in dom[n] for fd in finds) and any('isinstance(xsd_element, XsdElement)' in t and lab == 'F' or 'xsd_element is None' in t and lab == 'T'
+                                                         for t, lab in guards(ctx, f, n))
+        ctx.ob(rule, 'get_element: for a path ending in `*` the global declaration is consulted only after the lookup under the parent found none', f.loc(n.ast), ok,
+               '' if ok else 'the global declaration of the tag is taken before (or without) `self.find(path[:-1] + tag)`: a local child declaration that shares its name '
+               'with a global element of another type is validated against the global one - lazy chunks and path=".../*" disagree with the full run',
+               key='get_element|star|local-first')
+    ctx.explain(f'{rule}: in the `*` branch of XMLSchemaBase.get_element the global lookup is dominated by self.find(...) and reached only '
+                'when that found no element.')
+
+
+RULES = [rule_a, rule_b, rule_c, rule_d, rule_e, rule_f]
